@@ -1,0 +1,75 @@
+//go:build verif
+
+// Contracts for package common, read by the govc verifier in /verif (comment-only: no code is
+// compiled from this file, with or without the tag).
+
+package common
+
+//@ ghost func (r *RollingIndex) wf() bool { return r.lastIndex >= -1 && r.lastIndex < 4611686018427387904 && len(r.items) <= r.lastIndex+1 && r.size >= 2 }
+//@ ghost func (r *RollingIndex) oldest() int { return r.lastIndex - len(r.items) + 1 }
+
+//@ func (r *RollingIndex) GetLastWindow() (lastWindow []interface{}, lastIndex int)
+//@   requires r != nil
+//@   modifies nothing
+//@   ensures[window] __seqeq(lastWindow, r.items) && lastIndex == r.lastIndex
+
+//@ func (r *RollingIndex) Get(skipIndex int) ([]interface{}, error)
+//@   ints checked
+//@   safety on
+//@   requires r != nil && r.wf()
+//@   modifies nothing
+//@   ensures[ahead]   skipIndex > r.lastIndex ==> ret1 == nil && len(ret0) == 0
+//@   ensures[toolate] skipIndex <= r.lastIndex && skipIndex+1 < r.oldest() ==> IsStore(ret1, TooLate)
+//@   ensures[suffix]  skipIndex <= r.lastIndex && skipIndex+1 >= r.oldest() ==>
+//@                      ret1 == nil && len(ret0) == r.lastIndex - skipIndex &&
+//@                      (forall k int :: 0 <= k && k < len(ret0) ==> ret0[k] == r.items[skipIndex+1+k-r.oldest()])
+
+//@ func (r *RollingIndex) GetItem(index int) (interface{}, error)
+//@   ints checked
+//@   safety on
+//@   requires r != nil && r.wf()
+//@   modifies nothing
+//@   ensures[toolate]  index < r.oldest() ==> IsStore(ret1, TooLate)
+//@   ensures[notfound] index > r.lastIndex ==> IsStore(ret1, KeyNotFound)
+//@   ensures[hit]      r.oldest() <= index && index <= r.lastIndex ==> ret1 == nil && ret0 == r.items[index-r.oldest()]
+
+//@ func (r *RollingIndex) Set(item interface{}, index int) error
+//@   ints checked
+//@   safety on
+//@   requires r != nil && r.wf() && index >= 0 && index < 4611686018427387904 && r.size < 4611686018427387904
+//@   modifies r.items, r.lastIndex
+//@   ensures[wf]      r.wf()
+//@   ensures[skip]    old(r.lastIndex) >= 0 && index > old(r.lastIndex)+1 ==>
+//@                      IsStore(ret0, SkippedIndex) && __seqeq(r.items, old(r.items)) && r.lastIndex == old(r.lastIndex)
+//@   ensures[append]  old(r.lastIndex) < 0 || index == old(r.lastIndex)+1 ==>
+//@                      ret0 == nil && r.lastIndex == index && len(r.items) >= 1 && r.items[len(r.items)-1] == item &&
+//@                      r.oldest() >= old(r.oldest()) &&
+//@                      (forall j int :: r.oldest() <= j && j < index && old(r.lastIndex) >= 0 ==> r.items[j-r.oldest()] == old(r.items)[j-old(r.oldest())])
+//@   ensures[replace] 0 <= old(r.lastIndex) && old(r.oldest()) <= index && index <= old(r.lastIndex) ==>
+//@                      ret0 == nil && r.lastIndex == old(r.lastIndex) && len(r.items) == len(old(r.items)) &&
+//@                      (forall j int :: 0 <= j && j < len(r.items) ==> r.items[j] == __ite(j == index-old(r.oldest()), item, old(r.items)[j]))
+//@   ensures[toolate] 0 <= old(r.lastIndex) && index < old(r.oldest()) ==>
+//@                      IsStore(ret0, TooLate) && __seqeq(r.items, old(r.items)) && r.lastIndex == old(r.lastIndex)
+
+//@ func (r *RollingIndex) roll()
+//@   ints checked
+//@   safety on
+//@   requires r != nil && r.size >= 0 && r.size/2 <= len(r.items)
+//@   modifies r.items
+//@   ensures[suffix] len(r.items) <= len(old(r.items)) &&
+//@                     (forall k int :: 0 <= k && k < len(r.items) ==> r.items[k] == old(r.items)[k + len(old(r.items)) - len(r.items)])
+//@   ensures[progress] r.size >= 2 ==> len(r.items) < len(old(r.items)) || len(old(r.items)) == 0
+//@   aux[half]       len(r.items) == len(old(r.items)) - r.size/2
+
+//@ func Median(input []int64) (median int64)
+//@   ints wrap
+//@   safety on
+//@   modifies nothing
+//@   aux[empty] len(input) == 0 ==> median == 0
+
+//@ func DecodeFromString(hexString string) ([]byte, error)
+//@   safety on
+//@   modifies nothing
+//@   ensures[dec] ret1 == nil ==> __seqeq(ret0, dec(hexString))
+
+//@ ghost func dec(s string) []byte
